@@ -382,8 +382,33 @@ func (tr *gtTr) stmt(s ast.Stmt, env *venv, next cont) gnode {
 		gtFail("expression statement %s (a call with effects) is outside the subset", gtExprText(x.X))
 	case *ast.DeclStmt:
 		gd, ok := x.Decl.(*ast.GenDecl)
+		if ok && gd.Tok == token.CONST {
+			// a local constant: the name stands for its value (an untyped constant stays untyped), no binding is emitted
+			for _, sp := range gd.Specs {
+				vs := sp.(*ast.ValueSpec)
+				if len(vs.Values) != len(vs.Names) {
+					gtFail("local const without a value of its own (iota list) is outside the subset")
+				}
+				for i, n := range vs.Names {
+					v := tr.expr(vs.Values[i], env)
+					if v.k == nil || len(v.binds) > 0 {
+						gtFail("local const %s is not a constant the translator evaluates", n.Name)
+					}
+					if vs.Type != nil {
+						v = tr.coerce(v, tr.g.resolveType(tr.p, tr.f, vs.Type, 0), "const "+n.Name)
+						if v.k == nil {
+							gtFail("local const %s is not a constant the translator evaluates", n.Name)
+						}
+					}
+					if n.Name != "_" {
+						env.declare(n.Name, &gvar{coq: tr.newName(n.Name), typ: v.typ, goName: n.Name, known: v.k})
+					}
+				}
+			}
+			return next(env)
+		}
 		if !ok || gd.Tok != token.VAR {
-			gtFail("local declaration other than var is outside the subset")
+			gtFail("local declaration other than var or const is outside the subset")
 		}
 		var pairs []struct {
 			name string
